@@ -258,10 +258,17 @@ func runC10(c *Ctx) {
 			return -1
 		}
 		ok := len(tl.Elems) > 0 && tl.Elems[0] == toStable && pos(resume) > 0 && pos(release) > 0
+		why := "a rollback sequence must start with RouteTrafficToStable, before ResumeWorkload and ReleaseWorkloadControl"
+		// K7: un-pinning the stable Service while the new-revision pods are all still there puts
+		// the service's traffic back on the new version in the middle of the rollback
+		if restore := ConstVal(p.ConstObj("api/v1beta1", tRestore)); ok && restore != "" && pos(restore) >= 0 && pos(restore) < pos(resume) {
+			ok = false
+			why = "in a rollback the stable Service is un-pinned (RestoreStableService) before the workload is rolled back (ResumeWorkload): the un-pinned Service selects old and new pods alike, so its traffic is back on the new version while the rollback is under way"
+		}
 		fn := "?"
 		if tl.Fn != nil {
 			fn = FuncName(tl.Fn)
 		}
-		c.Ob("R4.1", fn+"#sequence[Rollback]", tl.Pos, ok, "rollback sequence: "+strings.Join(tl.Elems, " → "), ifs(!ok, "a rollback sequence must start with RouteTrafficToStable, before ResumeWorkload and ReleaseWorkloadControl"))
+		c.Ob("R4.1", fn+"#sequence[Rollback]", tl.Pos, ok, "rollback sequence: "+strings.Join(tl.Elems, " → "), ifs(!ok, why))
 	}
 }
